@@ -13,17 +13,14 @@
     (d) an operation issued in a session that opened the mailbox with EXAMINE
         ([ro = true]) changes nothing.
     COPY, APPEND and EXPUNGE of a read-write session are taken as the model
-    has them (their own properties are C03/C09). *)
+    has them (their own properties are C03/C09).  This file does not depend on
+    how the model tests flags: the queries below are stated on their own. *)
 From Coq Require Import String Ascii List Bool Arith ZArith.
 From Raven Require Import Base.GoStr Model.Flags Model.FlagStore.
 Import ListNotations.
 Local Open Scope Z_scope.
 
 Definition memZ (x : Z) (l : list Z) : bool := existsb (Z.eqb x) l.
-
-(** uids of the rows a message sequence set denotes *)
-Definition seq_targets (ls : list link) (mb : Z) (s : seqset) : list Z :=
-  flat_map (fun n => match nth_link ls mb n with Some l => [lk_uid l] | None => [] end) (expand_seq ls mb s).
 
 Definition spec_update (ls : list link) (mb : Z) (targets : list Z) (item : str) (new : list str) : list link :=
   map (fun l => if in_mbox mb l && memZ (lk_uid l) targets
@@ -42,49 +39,34 @@ Definition spec_step (e : env) (s : st) (o : op) : st :=
 Fixpoint spec_run (e : env) (s : st) (h : list op) : st :=
   match h with [] => s | o :: h' => spec_run e (spec_step e s o) h' end.
 
-(** ---- finding classes (DESIGN.md section 4: K-examine, K-junk, K-samecopy, K-flagsub) ---- *)
-Inductive cls := ExamineWrites | JunkShift | JunkMove | JunkNoop | SameMailboxCopy.
+(** ---- finding classes ----
+    Left after the fix wave: the Junk/NonJunk auto-move (a deliberate feature
+    of raven that the statement, read strictly, does not allow). *)
+Inductive cls := JunkMove.
 
 Definition cls_code (c : option cls) : nat :=
-  match c with
-  | None => 0 | Some ExamineWrites => 1 | Some JunkShift => 2 | Some JunkMove => 3
-  | Some JunkNoop => 4 | Some SameMailboxCopy => 5
-  end%nat.
+  match c with None => 0 | Some JunkMove => 3 end%nat.
 
-(** would the row trigger the auto-move, and is it already in the destination? *)
-Definition junk_trigger (e : env) (mb : Z) (item : str) (new : list str) (l : link) : option bool :=
+(** does STORE re-file the row (Junk newly added outside Spam, or else NonJunk
+    newly added outside INBOX)? *)
+Definition will_move (e : env) (mb : Z) (item : str) (new : list str) (l : link) : bool :=
   let upd := calculate_new_flags (lk_flags l) new item in
-  if junk_added (lk_flags l) upd then Some (mb =? spam_id e)
-  else if nonjunk_added (lk_flags l) upd then Some (mb =? inbox_id e)
-  else None.
+  if junk_added (lk_flags l) upd then negb (mb =? spam_id e)
+  else if nonjunk_added (lk_flags l) upd then negb (mb =? inbox_id e)
+  else false.
 
 Definition rows_of_uids (ls : list link) (mb : Z) (uids : list Z) : list link :=
   flat_map (fun u => match find_key ls mb u with Some l => [l] | None => [] end) uids.
 
-Definition junk_class (e : env) (mb : Z) (item : str) (new : list str) (rows : list link) (plain : bool) : option cls :=
-  let tr := map (junk_trigger e mb item new) rows in
-  if existsb (fun t => match t with Some false => true | _ => false end) tr
-  then Some (if plain && (1 <? Z.of_nat (length rows)) then JunkShift else JunkMove)
-  else if existsb (fun t => match t with Some true => true | _ => false end) tr then Some JunkNoop
-  else None.
-
-(** another row of the same mailbox carries the same message_id *)
-Definition has_twin (ls : list link) (mb : Z) (l : link) : bool :=
-  existsb (fun l' => (lk_msg l' =? lk_msg l) && in_mbox mb l' && negb (lk_uid l' =? lk_uid l)) ls.
+Definition junk_class (e : env) (mb : Z) (item : str) (new : list str) (rows : list link) : option cls :=
+  if existsb (will_move e mb item new) rows then Some JunkMove else None.
 
 Definition classify (e : env) (s : st) (o : op) : option cls :=
   match o with
   | OStore ro _ mb q item new =>
-      if ro then Some ExamineWrites else
-      let rows := rows_of_uids (links s) mb (seq_targets (links s) mb q) in
-      match junk_class e mb item new rows true with
-      | Some c => Some c
-      | None => if existsb (has_twin (links s) mb) rows then Some SameMailboxCopy else None
-      end
+      if ro then None else junk_class e mb item new (rows_of_uids (links s) mb (seq_targets (links s) mb q))
   | OUidStore ro _ mb q item new =>
-      if ro then Some ExamineWrites else
-      junk_class e mb item new (rows_of_uids (links s) mb (expand_uid (links s) mb q)) false
-  | OExpunge ro _ => if ro then Some ExamineWrites else None
+      if ro then None else junk_class e mb item new (rows_of_uids (links s) mb (expand_uid (links s) mb q))
   | _ => None
   end.
 
@@ -116,11 +98,3 @@ Definition spec_unseen_count (ls : list link) (mb : Z) : Z :=
 Definition spec_first_unseen (ls : list link) (mb : Z) : option Z :=
   hd_error (positions (fun l => negb (mem SEEN (lk_flags l))) 1 (mbox_links ls mb)).
 
-(** the guard of (b): no stored atom other than [q] itself contains [q]
-    (for the LIKE tests: up to ASCII case) *)
-Definition no_proper_super (fl : list str) (q : str) : bool :=
-  forallb (fun f => negb (contains f q) || str_eqb f q) fl.
-Definition no_proper_super_ci (fl : list str) (q : str) : bool :=
-  forallb (fun f => negb (contains (to_lower f) (to_lower q)) || str_eqb f q) fl.
-Definition key_atoms (k : skey) : list str :=
-  match k with KHas q => [q] | KNot q => [q] | KNew => [RECENT; SEEN] end.
